@@ -498,7 +498,8 @@ func runC20(r *Run) {
 			break
 		}
 		if target == p && i%4 == 3 {
-			if desc, ok := h.commit(t); !ok && !r.Failed() {
+			empty := h.ref.N() == 0 // (a rolled-back first transaction of a database that does not exist yet is answered with an error: DESIGN section 16)
+			if desc, ok := h.commit(t); !ok && !r.Failed() && !empty {
 				if strings.Contains(desc, "busy") || strings.Contains(desc, "error") {
 					r.Failf("c20.wedged", "after %s %s the primary no longer commits (%s): a lock or halt was leaked", q.method, q.target, desc)
 				}
